@@ -197,6 +197,9 @@ func zero(t types.Type) value {
 	case *types.Pointer:
 		return (*value)(nil)
 	case *types.Array:
+		if t.Len() > 1<<20 {
+			panic(engineError{"array value too large for the engine: " + t.String()})
+		}
 		a := make(array, t.Len())
 		for i := range a {
 			a[i] = zero(t.Elem())
